@@ -7,7 +7,9 @@ PROPS["C03"] = dict(
              require=["mode.build", "mode.writer", "mode.lossless", "fmt.gzip", "fmt.zstd", "fmt.ext", "incomp.gzip", "incomp.zstd",
                       "minchunk.on", "toc.inner", "toc.chunk", "build.parallel", "case.chunked", "result.error", "result.ok",
                       "lossless.checked", "writer.multicall", "writer.multicall.minchunk",
-                      "dup.respelled.build", "dup.respelled.writer", "dup.respelled.triple", "dup.respelled.mixedtype", "prio.respelled", "prio.general", "open.checked", "reuse.ext", "reuse.gzip", "reuse.zstd", "reuse.builds3"]),
+                      "dup.respelled.build", "dup.respelled.writer", "dup.respelled.triple", "dup.respelled.mixedtype", "prio.respelled", "prio.general", "open.checked", "reuse.ext", "reuse.gzip", "reuse.zstd", "reuse.builds3",
+                      "opt.helper.gzip", "opt.helper.zstd", "opt.helper.ext", "opt.helper.gzipinput", "opt.ctx", "attr.mtime.negative",
+                      "attr.mtime.subsecond", "attr.mtime.far", "attr.id.huge", "attr.mode.special"]),
         dict(cmd="buildfooter", mod="root", model="Model.EsgzFooter", quick=200, thorough=6000, shard=100, coq_jobs=8,
              preamble="Open Scope N_scope.",
              require=["fmt.gzip", "fmt.legacy", "fmt.zstd", "fmt.ext", "kind.enc", "kind.parse", "parse.ok", "parse.err"]),
@@ -23,6 +25,8 @@ PROPS["C03"] = dict(
         "compressed member sizes, flush observations (w.cw.n after flushGz), tar header lengths and TOC JSON sizes are oracle values read from "
         "the real writer; the theorems quantify over all of them",
         "SHA-256 is not modelled: digests are recomputed on the implementation's output by the harness oracle; the model proves WHICH bytes are hashed",
+        "WithGzipHelperFunc / WithContext only choose WHO decompresses / when to abort: they do not appear in the model (same blob expected); "
+        "the harness crosses them with every compression and input compression",
         "goroutine plumbing of Build (WaitGroup, pipes, temp files) is modelled by its data flow only: part i is written by its own fresh Writer",
         "prioritized-file ordering (sortEntries / moveRec) is own-C14's model Model/Sort.v (with its proofs), composed here with the writers: "
         "Build cases hand the RAW input tar (names, hardlink targets, prioritized list) to the composed model Model/EsgzBuild.v",
